@@ -322,6 +322,18 @@ pub fn inputs(ctx: &Ctx) -> Vec<Case> {
             v.push(Case { kv: gen::assign(words.clone(), 5, &mut rng), set: false, family: "corpus", index: 2 });
         }
     }
+    // two-key sets whose output length sweeps past the multiples of 4 KiB .. 64 KiB (a writer that stages its output in blocks
+    // has its special cases where the pending bytes and the 4 checksum bytes meet a block edge)
+    let mut idx = 10;
+    for &b in [4096usize, 8192, 16384, 32768, 65536].iter() {
+        // file length = L + 43; quick: beyond 4 KiB only the lengths b-2 ..= b+7
+        let (lo, hi) = if ctx.quick() && b > 4096 { (8, 18) } else { (0, 70) };
+        for d in lo..hi {
+            let l = b + 10 - 38 - d;
+            v.push(Case { kv: vec![(b"a".to_vec(), 0), (vec![b'q'; l], 0)], set: true, family: "length-sweep", index: idx });
+            idx += 1;
+        }
+    }
     v
 }
 
@@ -349,7 +361,16 @@ pub fn run(ctx: &Ctx) -> i32 {
                 let w = clean_sink.write_calls();
                 let d = refdec::decode(&clean).ok();
                 let before = ev.evaluations;
-                let step = (w / maxpos).max(1);
+                let sweep = case.family == "length-sweep";
+                let step = (w / if sweep { 8 } else { maxpos }).max(1);
+                // the LAST write calls (checksum, footer, whatever a staging writer hands over at the end), every one of them,
+                // refused with Ok(0), with an error, and accepted short and then refused
+                for i in w.saturating_sub(6)..w {
+                    inject(case, fe, None, Policy::FailWriteAt(i, Fault::Zero), &clean, d.as_ref(), ev);
+                    inject(case, fe, None, Policy::FailWriteAt(i, Fault::Err(ErrorKind::Other)), &clean, d.as_ref(), ev);
+                    inject(case, fe, None, Policy::ShortThenFail(i, Fault::Zero), &clean, d.as_ref(), ev);
+                    ev.count("fault:at-each-of-the-last-write-calls");
+                }
                 let mut i = (ci + ctx.seed as usize) % step;
                 while i <= w {
                     // i == w: the fault position lies beyond the last write -> the run must finish cleanly
@@ -369,7 +390,7 @@ pub fn run(ctx: &Ctx) -> i32 {
                     ev.count("fault:in-the-middle-of-a-logical-write");
                     i += step;
                 }
-                let cstep = (clean.len() / 60).max(1);
+                let cstep = (clean.len() / if sweep { 6 } else { 60 }).max(1);
                 let mut total = (ci + fe) % cstep;
                 while total < clean.len() {
                     inject(case, fe, None, Policy::Capacity { total, chunk: [usize::MAX, 5, 1][(total / cstep) % 3], fault: if (total / cstep) % 2 == 0 { Fault::Zero } else { Fault::Err(ErrorKind::Other) } }, &clean, d.as_ref(), ev);
@@ -385,7 +406,7 @@ pub fn run(ctx: &Ctx) -> i32 {
                     interrupted_flush(case, fe, *k, &clean, ev);
                 }
                 // through a BufWriter: the inner sink sees few, large writes; the fault surfaces when the buffer drains
-                for cap in [16usize, 64, 8192].iter() {
+                for cap in [16usize, 64, 8192].iter().take(if sweep { 0 } else { 3 }) {
                     let probe = Sink::new(Policy::Full);
                     let _ = guard(|| drive(case, fe, BufWriter::with_capacity(*cap, probe.clone()), &probe));
                     let wb = probe.write_calls();
